@@ -291,7 +291,7 @@ def run(ctx):
     fams = [("toggle", "States_sched_toggle.cfg"), ("hold", "States_sched_hold.cfg")]
     if not quick:
         fams += [("y", "States_sched_y.cfg")]
-    quota = {"toggle": (100, 5000), "hold": (60, 3000), "y": (0, 1200)}
+    quota = {"toggle": (100, 5000), "hold": (60, 2000), "y": (0, 800)}
     cand = set()
     for fam, cfg in fams:
         t0 = time.time()
@@ -310,7 +310,7 @@ def run(ctx):
         phase["sched_" + fam] = round(time.time() - t0, 1)
         scheds += [(fam, x["h"], x["bad"]) for x in sel]
     t0 = time.time()
-    _, behs = ctx.tlc_simulate("States", "States_sim.cfg", num=250 if quick else 2500, depth=70)
+    _, behs = ctx.tlc_simulate("States", "States_sim.cfg", num=250 if quick else 1500, depth=70)
     for b in behs:
         scheds.append(("sim", b[-1]["h"], b[-1]["bad"]))
         cand.update(b[-1]["bad"])
@@ -377,7 +377,7 @@ def run(ctx):
 
     # 4. free-running histories (binding B)
     t0 = time.time()
-    num = 250 if quick else 3000
+    num = 250 if quick else 2000
     nproc = 1 if quick else 4
     events = []
     for k in range(nproc):
@@ -396,6 +396,13 @@ def run(ctx):
     ctx.traces += n2
     phase["free+validate"] = round(time.time() - t0, 1)
     ctx.extra["histories"] = {"forced": n, "free": n2, "not_explained_by_model": unexp + unexp2}
+    if ctx.extra.get("free_stuck_histories"):
+        ctx.extra["free_stuck_note"] = (
+            "a stuck free-running history is a deadlock of the real code, outside the statement of C09 (safety only) and "
+            "therefore not a verdict: SetAllowConsensus holds the read side of States.stateLock and then calls st.current() "
+            "(states.go, directly and through HandoverYBroker.cancel -> whenCanceledf), which takes the read side again; when "
+            "exitAndEnter is waiting for the write side in between, sync.RWMutex blocks the second RLock forever (goroutine "
+            "dump taken with VERIF_C09_DUMP=<file>). The partial log of such a history is still validated.")
     if unexp + unexp2 > (n + n2) // 10:
         raise core.MachineryError("%d of %d recorded histories are not explained by States.tla - the model no longer "
                                   "describes the code (see evidence: unexplained_histories)" % (unexp + unexp2, n + n2))
